@@ -3,8 +3,8 @@
    every flag, and ALL words over ALL symbols (a word containing a symbol outside the alphabet is
    rejected: `promised syms c P w` = w is over syms and satisfies P, resp. not P when c = false). *)
 From Coq Require Import List Arith Bool.
-From AV Require Import Base.Util Spec.Lang Spec.FA Spec.Preds Model.Decide Model.Product Model.Construct
-                       Proofs.Preds Proofs.Border Proofs.Construct Proofs.IsMinimal.
+From AV Require Import Base.Util Spec.Lang Spec.FA Spec.Minimal Spec.Preds Model.Decide Model.Product Model.Construct
+                       Proofs.Preds Proofs.Border Proofs.Construct Proofs.IsMinimal Proofs.CtorMinimal.
 Import ListNotations.
 
 (* ---- from_prefix: contains / complement, partial / complete ---- *)
@@ -162,22 +162,26 @@ Print Assumptions C15_universal_empty.
 
 (* ---- minimality ----
    is_minimal (executable; evaluated by the extracted code on every implementation result whose
-   docstring promises "the minimal DFA") is sound: full statement below.  Its proof needs the
-   Myhill-Nerode lower bound, which is theorem C05_nerode_lower_bound on branch `minim`
-   (coq/Props/P_C05.v) - not duplicated here.  What is proved here: the statement follows from
-   exactly that lower bound (nerode_lower_bound_statement is C05_nerode_lower_bound's statement,
-   verbatim); after the merge the full statement is closed by
-     exact (C15_is_minimal_sound_partial C05_nerode_lower_bound).                          *)
-Definition C15_is_minimal_sound_statement : Prop :=
-  forall m, valid_dfa m = true -> is_minimal m = true ->
-    (forall m', valid_dfa m' = true -> complete m' -> d_syms m' = d_syms m -> L_dfa m' =L L_dfa m ->
-                size m <= size m') /\
-    (d_partial m = true ->
-     forall m', valid_dfa m' = true -> L_dfa m' =L L_dfa m -> size m <= size m').
+   docstring promises "the minimal DFA") is sound: a valid DFA that passes it is minimal among the
+   DFAs of its own kind (Spec/Minimal.v): no complete DFA over the same alphabet for the same
+   language is smaller, and - when the DFA is flagged partial - no DFA at all is smaller.
+   (Myhill-Nerode lower bound: Proofs/Minimize.v, theorem C05_nerode_lower_bound.) *)
+Definition minimal_of_kind (m : dfa) : Prop :=
+  minimal_complete m /\ (d_partial m = true -> minimal_partial m).
 
-Theorem C15_is_minimal_sound_partial : nerode_lower_bound_statement -> C15_is_minimal_sound_statement.
-Proof. exact is_minimal_sound_of_lower_bound. Qed.
-Print Assumptions C15_is_minimal_sound_partial.
+Theorem C15_is_minimal_sound : forall m, valid_dfa m = true -> is_minimal m = true -> minimal_of_kind m.
+Proof. exact is_minimal_sound. Qed.
+Print Assumptions C15_is_minimal_sound.
+
+(* and complete: accessible + pairwise distinguishable (+ live when flagged partial) passes the test *)
+Theorem C15_is_minimal_complete : forall m, valid_dfa m = true ->
+  (forall r, In r (d_states m) -> exists u, dfa_run m (Some (d_init m)) u = Some r) ->
+  (forall r1 r2, In r1 (d_states m) -> In r2 (d_states m) -> r1 <> r2 ->
+     exists w, dfa_acc_from m (Some r1) w <> dfa_acc_from m (Some r2) w) ->
+  (d_partial m = true -> forall r, In r (d_states m) -> exists w, dfa_acc_from m (Some r) w = true) ->
+  is_minimal m = true.
+Proof. exact is_minimal_intro. Qed.
+Print Assumptions C15_is_minimal_complete.
 
 (* the ingredients of the test mean what they say *)
 Theorem C15_is_minimal_ingredients : forall m p q, valid_dfa m = true -> In p (d_states m) -> In q (d_states m) ->
@@ -231,15 +235,48 @@ Example C15_example_minimal :
   is_minimal (mkdfa [0;1] [0] [(0,[(0,1)]);(1,[])] 0 [0] true) = false.            (* partial with a dead state *)
 Proof. vm_compute. repeat split. Qed.
 
-(* stretch (T2), stated only: the constructor models themselves are minimal for every non-empty
-   pattern over an alphabet of at least two symbols.  Not proved in general; the bounded instance
-   below (all patterns of length 1-4 over two symbols, 1-3 over three symbols, every flag) is computed. *)
-Definition C15_constructors_minimal_statement : Prop :=
-  forall syms p c, NoDup syms -> 2 <= length syms -> p <> [] -> word_over syms p ->
-    (forall ap, is_minimal (from_prefix_m syms p c ap) = true) /\
-    (forall ms, is_minimal (from_substring_m syms p c ms) = true) /\
-    is_minimal (from_subsequence_m syms p c) = true.
+(* T2: the constructor models themselves are minimal, for ALL parameters: every non-empty pattern over the
+   alphabet (from_substring / from_suffix / from_prefix), every pattern incl. the empty one
+   (from_subsequence), every non-empty range with a counted symbol in the alphabet (of_length), every n and
+   symbol (nth_from_start, one-symbol alphabets included).  Only from_prefix with an error state (complement
+   or complete form) needs a second symbol - otherwise the error state is unreachable.  Each proof exhibits an
+   access word for every state and a distinguishing word for every pair of states (Proofs/CtorMinimal.v);
+   `passes m` = the executable test says so AND m is minimal of its kind in the sense of Spec/Minimal.v. *)
+Definition passes (m : dfa) : Prop := valid_dfa m = true /\ is_minimal m = true /\ minimal_of_kind m.
 
+Theorem C15_constructors_minimal : forall syms, NoDup syms ->
+  passes (universal_m syms) /\ passes (empty_m syms) /\
+  (forall p c, word_over syms p -> passes (from_subsequence_m syms p c)) /\
+  (forall p c ms, p <> [] -> word_over syms p -> passes (from_substring_m syms p c ms)) /\
+  (forall p c, p <> [] -> word_over syms p -> passes (from_suffix_m syms p c)) /\
+  (forall p, p <> [] -> word_over syms p -> passes (from_prefix_m syms p true true)) /\
+  (forall p c ap, p <> [] -> word_over syms p -> 2 <= length syms -> passes (from_prefix_m syms p c ap)) /\
+  (forall lo hi cnt, (exists a, In a syms /\ In a (counted_set syms cnt)) ->
+     match hi with Some h => lo <= h | None => True end -> passes (of_length_m syms lo hi cnt)) /\
+  (forall s n m, nth_from_start_m syms s n = Ok m -> passes m).
+Proof.
+  intros syms Hnd.
+  assert (passes_intro : forall m, valid_dfa m = true -> is_minimal m = true -> passes m).
+  { intros m Hv Hm. split; [exact Hv|]. split; [exact Hm|]. exact (is_minimal_sound m Hv Hm). }
+  split; [apply passes_intro; [apply universal_valid|apply universal_is_minimal]; exact Hnd|].
+  split; [apply passes_intro; [apply empty_valid|apply empty_is_minimal]; exact Hnd|].
+  split; [intros p c Hp; apply overb_spec in Hp;
+          apply passes_intro; [apply from_subsequence_valid|apply from_subsequence_is_minimal]; assumption|].
+  split; [intros p c ms Hne Hp; apply overb_spec in Hp;
+          apply passes_intro; [apply from_substring_valid|apply from_substring_is_minimal]; assumption|].
+  split; [intros p c Hne Hp; apply overb_spec in Hp;
+          apply passes_intro; [apply from_substring_valid|apply from_substring_is_minimal]; assumption|].
+  split; [intros p Hne Hp; apply overb_spec in Hp;
+          apply passes_intro; [apply from_prefix_valid|apply from_prefix_is_minimal]; try assumption; discriminate|].
+  split; [intros p c ap Hne Hp H2; apply overb_spec in Hp;
+          apply passes_intro; [apply from_prefix_valid|apply from_prefix_is_minimal]; try assumption; intros _; exact H2|].
+  split; [intros lo hi cnt [a [Ha Hc]] Hr;
+          apply passes_intro; [apply of_length_valid; exact Hnd|apply (of_length_is_minimal syms lo hi cnt a); assumption]|].
+  intros s n m Hm. apply passes_intro; [eapply nth_from_start_valid; eassumption|eapply nth_from_start_is_minimal; eassumption].
+Qed.
+Print Assumptions C15_constructors_minimal.
+
+(* the same by computation on all small patterns (kept as a cross-check of the models) *)
 Example C15_constructors_minimal_bounded :
   let ok syms p :=
       match p with
